@@ -483,7 +483,11 @@ pub struct HarnessCc {
 
 impl HarnessCc {
     fn rec(&mut self, c: CcCall) {
-        self.n += 1;
+        // the window may only change between poll_transmit calls, never inside one: sending
+        // (on_sent) leaves it alone
+        if !matches!(c, CcCall::Sent { .. }) {
+            self.n += 1;
+        }
         if let Some(l) = &self.log {
             l.lock().unwrap().calls.push(c);
         }
